@@ -243,6 +243,7 @@ let fmt_dres = function
 let run_direct u line =
   match words line with
   | [v; bytes] ->
+    let v = if String.length v > 1 && v.[String.length v - 1] = 'd' then String.sub v 0 (String.length v - 1) else v in
     (match decode (parse_bytes bytes) with
      | None -> "MODEL-NA-invalid-utf8"
      | Some input ->
